@@ -727,13 +727,13 @@ def run(ck: common.Check):
     n_corpus = len(cases)
     cases += exhaustive_cases(ck.rng, thorough)
     cases += history_cases(ck.rng, thorough)
-    for _ in range(1500 if thorough else 180):
+    for _ in range(1500 if thorough else 150):
         cases.append(random_case(ck.rng, thorough))
     for _ in range(300 if thorough else 40):
         cases.append(malformed_case(ck.rng))
     ck.extra["corpus_cases"] = n_corpus
 
-    seqs = [sequence_case(ck.rng, thorough) for _ in range(300 if thorough else 44)]
+    seqs = [sequence_case(ck.rng, thorough) for _ in range(300 if thorough else 36)]
     all_obs = common.pmap(observe, cases + seqs, chunksize=4)
     obs_all, seq_obs = all_obs[:len(cases)], all_obs[len(cases):]
     drv = ck.driver()
